@@ -4,6 +4,8 @@
 -/
 import PygModel.Slice
 import PygProofs.Lemmas.DfSliceLemmas
+import PygProofs.Lemmas.DfSliceNaLemmas
+import PygProofs.Lemmas.DfSliceBcastLemmas
 
 namespace Pyg.Props.C13
 open Pyg Pyg.Slice
@@ -1106,6 +1108,100 @@ def okEq {α} [BEq α] (r : Res α) (x : α) : Bool := match r with | .ok y => y
         stitch (u.map (·.2)) Option.none (some [2, 5]) (some ['(', ']']) 1
     | Option.none => pure Option.none : Res (Option Frame))
   (some ⟨1, [(0, [some 1]), (2, [some 3]), (3, [some 4]), (4, [some 5])]⟩)
+
+/-! ### at most once / decreasing lists for the other spellings of the bounds -/
+
+/-- **stitch_once, every spelling**: after `normalise`, if the intervals are chained - the upper bound of piece `i` is at
+    most the lower bound of every later piece `j` - and the brackets are not closed on both sides, the stitched index is
+    strictly increasing: every timestamp is covered at most once, in order. -/
+theorem stitch_once_general (dfs : List TS) (lb ub : Option (List Int)) (oc : Option (List Char)) (n : Nat)
+    (l u : Bool) (hb : brackets oc = .ok (l, u)) (hlu : ¬ (l = true ∧ u = true)) (dfs' : List TS) (lbs ubs : List (Option Int))
+    (hnorm : normalise dfs lb ub = .ok (dfs', lbs, ubs)) (h1 : lbs.length = dfs'.length) (h2 : ubs.length = dfs'.length)
+    (htwo : 2 ≤ dfs'.length) (hs : ∀ s ∈ dfs', s.Sorted)
+    (hchain : ∀ i j (hi : i < ubs.length) (hj : j < lbs.length), i < j → ∃ a b, ubs[i] = some a ∧ lbs[j] = some b ∧ a ≤ b)
+    (F : Frame) (hF : stitch dfs lb ub oc n = .ok (some F)) :
+    F.rows.Pairwise (fun a b => a.1 < b.1) := by
+  have hpl := piecesG_length dfs' lbs ubs n l u h1 h2
+  have hfl := framesOf_length dfs' n
+  rw [stitch_general dfs lb ub oc n l u hb dfs' lbs ubs hnorm h1 h2, assemble_many _ (by omega)] at hF
+  cases hF
+  show List.Pairwise _ (List.flatMap _ _)
+  rw [List.pairwise_flatMap]
+  constructor
+  · intro f hf
+    obtain ⟨i, hi, rfl⟩ := List.mem_iff_getElem.mp hf
+    rw [piecesG_getElem dfs' lbs ubs n l u i hi (by omega) (by omega) (by omega)]
+    simp only [List.pairwise_map]
+    exact (framesOf_rows_sorted dfs' n hs _ (List.getElem_mem _)).sublist List.filter_sublist
+  · rw [List.pairwise_iff_getElem]
+    intro i j hi hj hij x hx y hy
+    rw [piecesG_getElem dfs' lbs ubs n l u i hi (by omega) (by omega) (by omega)] at hx
+    rw [piecesG_getElem dfs' lbs ubs n l u j hj (by omega) (by omega) (by omega)] at hy
+    simp only [List.mem_map, List.mem_filter, inWindow, Bool.and_eq_true] at hx hy
+    obtain ⟨rx, ⟨_, _, hxu⟩, rfl⟩ := hx
+    obtain ⟨ry, ⟨_, hyl, _⟩, rfl⟩ := hy
+    obtain ⟨a, b, ha, hb', hab⟩ := hchain i j (by omega) (by omega) hij
+    rw [ha] at hxu; rw [hb'] at hyl
+    have hxu' := (ubOk_iff u (.date a) rx.1).mp hxu
+    have hyl' := (lbOk_iff l (.date b) ry.1).mp hyl
+    show rx.1 < ry.1
+    cases l <;> cases u <;> simp at hxu' hyl' hlu <;> omega
+
+/-- **stitch_once, lower bounds only**: the intervals `(lb[i], lb[i+1]]` (the last one unbounded above) of a
+    non-decreasing list cover each timestamp at most once -/
+theorem stitch_once_lb (dfs : List TS) (lb : List Int) (hlen : dfs.length = lb.length) (htwo : 2 ≤ lb.length)
+    (hinc : nonDecreasing lb = true) (hs : ∀ s ∈ dfs, s.Sorted) (oc : Option (List Char)) (n : Nat) (l u : Bool)
+    (hb : brackets oc = .ok (l, u)) (hlu : ¬ (l = true ∧ u = true)) (F : Frame)
+    (hF : stitch dfs (some lb) Option.none oc n = .ok (some F)) : F.rows.Pairwise (fun a b => a.1 < b.1) := by
+  have hlb := nonDecreasing_pairwise lb hinc
+  refine stitch_once_general dfs (some lb) Option.none oc n l u hb hlu dfs (lb.map some) ((lb.drop 1).map some ++ [Option.none])
+    (normalise_lb_only dfs lb hinc) (by simp [hlen]) (by simp [hlen]; omega) (by omega) hs ?_ F hF
+  intro i j hi hj hij
+  simp only [List.length_map] at hj
+  have hi1 : i + 1 < lb.length := by omega
+  refine ⟨lb[i + 1], lb[j], ?_, by simp, ?_⟩
+  · rw [List.getElem_append_left (by simp; omega)]; simp
+  · by_cases he : i + 1 = j
+    · subst he; exact Int.le_refl _
+    · exact (List.pairwise_iff_getElem.mp hlb) (i + 1) j hi1 hj (by omega)
+
+/-- **stitch_once, both lists**: the intervals `(lb[i], ub[i]]` cover each timestamp at most once PROVIDED they are
+    chained, `ub[i] ≤ lb[i+1]` (lower bounds non-decreasing); without that they may overlap (`stitch_both_overlap`) -/
+theorem stitch_once_both (dfs : List TS) (lb ub : List Int) (hlen : dfs.length = ub.length) (hlen' : lb.length = ub.length)
+    (htwo : 2 ≤ ub.length) (hil : nonDecreasing lb = true) (hiu : nonDecreasing ub = true)
+    (hchain : ∀ i (h1 : i < ub.length) (h2 : i + 1 < lb.length), ub[i] ≤ lb[i + 1])
+    (hs : ∀ s ∈ dfs, s.Sorted) (oc : Option (List Char)) (n : Nat) (l u : Bool)
+    (hb : brackets oc = .ok (l, u)) (hlu : ¬ (l = true ∧ u = true)) (F : Frame)
+    (hF : stitch dfs (some lb) (some ub) oc n = .ok (some F)) : F.rows.Pairwise (fun a b => a.1 < b.1) := by
+  have hlb := nonDecreasing_pairwise lb hil
+  refine stitch_once_general dfs (some lb) (some ub) oc n l u hb hlu dfs (lb.map some) (ub.map some)
+    (normalise_both_lists dfs lb ub hil hiu) (by simp [hlen, hlen']) (by simp [hlen]) (by omega) hs ?_ F hF
+  intro i j hi hj hij
+  simp only [List.length_map] at hi hj
+  refine ⟨ub[i], lb[j], by simp, by simp, ?_⟩
+  have h1 := hchain i hi (by omega)
+  by_cases he : i + 1 = j
+  · subst he; exact h1
+  · have := (List.pairwise_iff_getElem.mp hlb) (i + 1) j (by omega) hj (by omega)
+    omega
+
+/-- ... and the chaining hypothesis is needed: with both lists the intervals `(0, 5]` and `(2, 9]` overlap, the
+    timestamp 3 is taken from both series -/
+theorem stitch_both_overlap :
+    stitch [[(3, some 1)], [(3, some 2)]] (some [0, 2]) (some [5, 9]) (some ['(', ']']) 1 =
+      .ok (some ⟨1, [(3, [some 1]), (3, [some 2])]⟩) := by rfl
+
+/-- decreasing lists, the other spellings: reversed together with the series they give the same frame -/
+theorem stitch_decreasing_lb (dfs : List TS) (lb : List Int) (oc : Option (List Char)) (n : Nat)
+    (h1 : nonDecreasing lb = false) (h2 : nonDecreasing lb.reverse = true) :
+    stitch dfs (some lb) Option.none oc n = stitch dfs.reverse (some lb.reverse) Option.none oc n := by
+  simp [stitch, normalise, h1, h2]
+
+theorem stitch_decreasing_both (dfs : List TS) (lb ub : List Int) (oc : Option (List Char)) (n : Nat)
+    (h1 : nonDecreasing lb = false) (h2 : nonDecreasing lb.reverse = true)
+    (h3 : nonDecreasing ub = false) (h4 : nonDecreasing ub.reverse = true) :
+    stitch dfs (some lb) (some ub) oc n = stitch dfs.reverse (some lb.reverse) (some ub.reverse) oc n := by
+  simp [stitch, normalise, h1, h2, h3, h4]
 
 theorem tod_range (t : Int) : 0 ≤ tod t ∧ tod t < DAY := ⟨tod_nonneg t, tod_lt t⟩
 
